@@ -66,7 +66,7 @@ def impl(c):
         return "out-of-fuel"
     if run.exc is not None:
         return fmt.err(run.exc)
-    return "ok grids=" + fmt.hist(ev2.scaled(run.res, c))
+    return "ok grids=" + fmt.hist(ev2.scaled(run.res, c)) + " consults=" + "/".join("%s@%d" % (fmt.hist(gs), t) for gs, t in run.pred.calls)
 
 
 def oracle(c):
